@@ -210,6 +210,42 @@ def parallel(fn, items, jobs=None):
     return out
 
 
+def run_cancellable(cmd, env, timeout, cancel, grace=90):
+    """Like run(), but the process is ended `grace` seconds after `cancel` (a threading.Event) is set by a sibling
+    that has already found a violation: a mutated library that hangs in one shard must not hold the verdict back
+    for the whole safety timeout. Returns rc "cancelled" in that case."""
+    e = dict(os.environ)
+    e.update(SAN_ENV)
+    if env:
+        e.update(env)
+    t0 = time.time()
+    import tempfile
+    with tempfile.TemporaryFile() as out:
+        p = subprocess.Popen(cmd, stdout=out, stderr=subprocess.STDOUT, env=e)
+        cancelled_at = None
+        while True:
+            try:
+                p.wait(timeout=2)
+                break
+            except subprocess.TimeoutExpired:
+                pass
+            now = time.time()
+            if cancel.is_set() and cancelled_at is None:
+                cancelled_at = now
+            if cancelled_at is not None and now - cancelled_at > grace:
+                p.kill()
+                p.wait()
+                out.seek(0)
+                return "cancelled", out.read().decode(errors="replace"), now - t0
+            if timeout and now - t0 > timeout:
+                p.kill()
+                p.wait()
+                out.seek(0)
+                return "timeout", out.read().decode(errors="replace"), now - t0
+        out.seek(0)
+        return p.returncode, out.read().decode(errors="replace"), time.time() - t0
+
+
 def run(cmd, env=None, timeout=None, cwd=None, stdin=None):
     e = dict(os.environ)
     e.update(SAN_ENV)
